@@ -23,6 +23,18 @@ CLAIMED: dict[str, tuple[str, str, str, str]] = {
             "Bounded: N<=40 files, K<=16; controlled pool replaces ProcessPoolExecutor/as_completed only; "
             "real-pool schedules are sampled; trusted: TLC, the H2 tap, the projection in checks/C07.py.",
             TECH),
+    "C08": ("DESIGN.md §5 C08",
+            "spec/Orchestrator.tla models the long-lived Linter/Orchestrator (DRY rows, stringly rows, finalize "
+            "resets) and is model-checked exhaustively (3 paths x 4 content classes, <=6 operations; "
+            "HistoryFree, NoGhosts, UnionLaw) with a non-vacuity run of the pinned-commit variant; "
+            "TLC-simulated histories of write/delete/lint-file/lint-dir/lint-files are replayed on one real "
+            "Linter with a fresh Linter as reference after every call and validated by TLC against "
+            "OrchestratorTrace.tla; all permutations of <=5 files (sampled beyond), PYTHONHASHSEED values and "
+            "before/after snapshots of the project dir and a private TMPDIR for every command (sequential, "
+            "--parallel, both DRY storage modes) through real processes.",
+            "Bounded histories (depth <=12), 4 abstract content classes, config not edited mid-history; "
+            "the reference is the same code on a fresh object (relation between runs).",
+            TECH),
 }
 
 REASON_NOT_YET = ("no check registered yet in this build; the TLA+ technique applies (see DESIGN.md §5) "
